@@ -288,6 +288,7 @@ func main() {
 	// --- sentinels of known findings ----------------------------------------
 	sentinelInfo := map[string]string{}
 	var regressViolations []string
+	var deferredKnown []finding
 	for _, f := range loadFindings() {
 		if !has(f.Properties, id) {
 			continue
@@ -296,6 +297,9 @@ func main() {
 			// regression replay of a repaired defect: suppresses nothing, must pass
 			for _, sent := range strings.Fields(f.Sentinel) {
 				sp := filepath.Join(verifRoot, sent)
+				if replayProperty(sp) != id {
+					continue
+				}
 				sunits, err := spec.Prepare(id, tier, seed, sp)
 				if err != nil {
 					inconclusive("prepare for regression replay %s failed: %v", f.ID, err)
@@ -321,6 +325,11 @@ func main() {
 			continue
 		}
 		sp := filepath.Join(verifRoot, f.Sentinel)
+		if replayProperty(sp) != id {
+			// the sentinel belongs to another property's check; here the finding is reported when its input class is met
+			deferredKnown = append(deferredKnown, f)
+			continue
+		}
 		sunits, err := spec.Prepare(id, tier, seed, sp)
 		if err != nil {
 			inconclusive("prepare for sentinel %s failed: %v", f.ID, err)
@@ -539,6 +548,11 @@ func main() {
 		problems = append(problems, "cannot write evidence: "+err.Error())
 	}
 
+	for _, f := range deferredKnown {
+		if agg.Excluded[f.ID] > 0 {
+			knownLines = append(knownLines, fmt.Sprintf("KNOWN-FINDING: property=%s %s: %s (%d generated cases fell into this class and were excluded)", id, f.ID, f.What, agg.Excluded[f.ID]))
+		}
+	}
 	for _, l := range knownLines {
 		fmt.Println(l)
 	}
